@@ -173,7 +173,7 @@ func VerifC14Signatures() {
 	}
 	enough := given >= vectors && d0 >= rep0 && (vectors == 1 || d1 >= rep1)
 	if given >= vectors {
-		vCoverIf(accepted, "signatures-accepted")
+		vRequire(accepted, "signatures-accepted")
 	}
 	vAssert(!accepted || enough, "C14/accepted-only-with-REP-distinct-members-per-vector")
 	if enough && rep0 >= 1 && (vectors == 1 || rep1 >= 1) {
